@@ -47,7 +47,15 @@ struct GS1 { g_t<long> a; g_t<unsigned short> b; rep_t p; g_t<long long> c; };
   f(unsigned short, b, FIELD_NORMAL, ##__VA_ARGS__) g()                        \
   f(int*, p, FIELD_NORMAL, ##__VA_ARGS__) g()                                  \
   f(long long, c, FIELD_NORMAL, ##__VA_ARGS__) g()
-#define sandbox_fields_reflection_inv_allClasses(f, ...) f(S1, inv, ##__VA_ARGS__)
+// a struct whose size and alignment are the same under the host ABI and under the guest ABIs of the harness while the layout
+// is not (the pointer and the long are narrower in the guest and padded)
+struct S2 { int* p; long long c; long a; };
+struct GS2 { rep_t p; g_t<long long> c; g_t<long> a; };
+#define sandbox_fields_reflection_inv_class_S2(f, g, ...)                      \
+  f(int*, p, FIELD_NORMAL, ##__VA_ARGS__) g()                                  \
+  f(long long, c, FIELD_NORMAL, ##__VA_ARGS__) g()                             \
+  f(long, a, FIELD_NORMAL, ##__VA_ARGS__) g()
+#define sandbox_fields_reflection_inv_allClasses(f, ...) f(S1, inv, ##__VA_ARGS__) f(S2, inv, ##__VA_ARGS__)
 rlbox_load_structs_from_library(inv);
 
 // ---- state shared with guest functions ----
@@ -64,6 +72,8 @@ static std::string show_val(T v)
   else if constexpr (std::is_enum_v<T>) return std::to_string(static_cast<unsigned long long>(v));
   else if constexpr (std::is_same_v<T, GS1>)
     return "{" + show_val(v.a) + ";" + show_val(v.b) + ";" + show_val(v.p) + ";" + show_val(v.c) + "}";
+  else if constexpr (std::is_same_v<T, GS2>)
+    return "{" + show_val(v.p) + ";" + show_val(v.c) + ";" + show_val(v.a) + "}";
   else return show_int(v);
 }
 template<typename T>
@@ -127,6 +137,15 @@ static rlbox::tainted<S1, Sbx> mk_s1(sandbox_t& sb, const std::string& s)
   r.b = parse_val<unsigned short>(f.at(1));
   r.p = mk_tptr<int*>(sb, f.at(2));
   r.c = parse_val<long long>(f.at(3));
+  return r;
+}
+static rlbox::tainted<S2, Sbx> mk_s2(sandbox_t& sb, const std::string& s)
+{
+  toks_t f = split(s, ';');
+  rlbox::tainted<S2, Sbx> r;
+  r.p = mk_tptr<int*>(sb, f.at(0));
+  r.c = parse_val<long long>(f.at(1));
+  r.a = parse_val<long>(f.at(2));
   return r;
 }
 template<int N>
